@@ -376,7 +376,7 @@ def gen_case_forall(rng, tier):
         return gen_case_forall_disj(rng)
     if rng.random() < 0.15:
         return gen_case_forall_projection(rng)
-    if rng.random() < 0.1:
+    if rng.random() < 0.16:
         return gen_case_forall_expr(rng, falsy_values=rng.random() < 0.4)
     nfree = rng.choice([1, 1, 2])
     heap, doms = _base(rng, nfree, dom_max=3)
